@@ -202,7 +202,10 @@ def conditions(tier):
             add(l1, l2, mode, 1, ("\n",), ("\n",), (0, 5))
             add(l1, l2, mode, 1, ("\n",), ("\n",), (6, 11))
         if thorough:
-            add(5, 5, mode, 1, ("\n", "<?x?>\n"), ("", "\n"), None, 2400)
+            for f in ("\n", "\n<?x?>\n"):
+                n55 = 5 + len(f) + 5 + 1
+                for lo in range(0, n55 + 1, 4):
+                    add(5, 5, mode, 1, (f,), ("\n",), (lo, lo + 3), 1800)
             for f in ("", "<?x?>\n"):
                 add(5, 4, mode, 1, (f,), ("", "\n"), None, 2400)
             for f in ("\n", "<?x?>\n"):
@@ -212,7 +215,7 @@ def conditions(tier):
     # the default constants of the statement (1024-byte reads, 2048-character
     # threshold) on concrete long messages: lengths and read sizes by symbolic index
     for mode in ("disabled", "default"):
-        out.append(Condition(f"long/{mode}", make_condition(long_message(mode), 0, 3, 0),
+        out.append(Condition(f"long/{mode}", make_condition(long_message(mode), 0, 4, 0),
                              about=f"one long message (2047..4100 characters) + a short one, read in 1024/700/2048/4096-character chunks, threshold {mode}",
                              encodes=ENC, bounds="concrete contents, symbolic length/chunk index", timeout=900))
     return out
@@ -224,7 +227,9 @@ def long_message(mode):
         R = d.choice((1024, 700, 2048, 4096), "chunk")
         if mode == "default" and L > 2048:
             raise Reject()       # longer than the threshold: not claimed (see C08 finding)
-        m1 = "<a " + "x" * (L - 5) + "/>"
+        # Latin-1 text too: lengths are counted in characters, whatever the encoding
+        fill = d.choice(("x", "\xe9"), "fill-character")
+        m1 = "<a " + fill * (L - 5) + "/>"
         m2 = "<b/>"
         stream = m1 + "\n" + m2 + "\n"
         oracle = GroundTruthOracle([m1, m2], limit=400)
